@@ -36,8 +36,9 @@ class Prop(core.Prop):
     ]
 
     def bounds(self, tier):
-        return {'time_blocks': [1, 2, 3], 'categories': [1, 2], 'tracers_per_category': [1, 2],
-                'layer_patterns': ['1', '3', '2+3', '3+1'], 'offsets': [(1, 1, 1), (13, 50, 1), (2, 3, 2)],
+        return {'time_blocks': [1, 2, 3] if tier == 'quick' else [1, 2, 3, 4, 5], 'categories': [1, 2], 'tracers_per_category': [1, 2],
+                'layer_patterns': ['1', '3', '2+3', '3+1', '2 / 1+2+3 / 3+2+1 (thorough)'],
+                'offsets': [(1, 1, 1), (13, 50, 1), (2, 3, 2), '(1,1,3), (72,1,1) (thorough)'],
                 'tables': ['complete', 'missing-line'], 'header_flags': ['11', '01', '10', '00'],
                 'block_length_hours': [1, '1/3', '1/2 (thorough)'],
                 'entry_points': ['bpch1', 'bpch2', 'bpch (default / reader=bpch1 / reader=bpch2)']}
@@ -57,16 +58,22 @@ class Prop(core.Prop):
                                 center180=f0['center180'], blocks=[d['flat']])) == b
 
     def groups(self, tier):
-        for nt in (1, 2, 3):
+        for nt in ((1, 2, 3) if tier == 'quick' else (1, 2, 3, 4, 5)):
             for ncat in (1, 2):
                 for ntr in (1, 2):
                     yield {'nt': nt, 'ncat': ncat, 'ntr': ntr}
 
     def expand(self, group):
-        for lp in ('1', '3', '2+3', '3+1'):
-            for off in ((1, 1, 1), (13, 50, 1), (2, 3, 2)):
+        th = self.tier == 'thorough'
+        for lp in (('1', '3', '2+3', '3+1') + (('2', '1+2+3', '3+2+1') if th else ())):
+            for off in (((1, 1, 1), (13, 50, 1), (2, 3, 2)) + (((1, 1, 3), (72, 1, 1)) if th else ())):
                 for tables in ('complete', 'missing-line'):
                     yield dict(group, layers=lp, start=list(off), tables=tables)
+                    if th:
+                        for dt in (2, 3, 4):
+                            yield dict(group, layers=lp, start=list(off), tables=tables, dt=dt)
+                        for flags in ((0, 1), (1, 0)):
+                            yield dict(group, layers=lp, start=list(off), tables=tables, flags=list(flags))
         # header flag variants and sub-hourly (20-minute) time blocks
         for flags in ((0, 1), (1, 0), (0, 0)):
             yield dict(group, layers='2+3', start=[1, 1, 1], tables='complete', flags=list(flags))
@@ -107,7 +114,11 @@ class Prop(core.Prop):
         from PseudoNetCDF.pncgen import pncgen
         r, vars_ = self.recipe(case)
         raw = rf.enc_bpch(r)
-        d = os.path.join(self.tmp, 'c_%d' % os.getpid())
+        # a fresh directory per case (tables live next to the file); the previous one is removed best-effort
+        self.ncase = getattr(self, 'ncase', 0) + 1
+        if getattr(self, 'lastdir', None):
+            shutil.rmtree(self.lastdir, True)
+        d = self.lastdir = os.path.join(self.tmp, 'c_%d_%d' % (os.getpid(), self.ncase))
         shutil.rmtree(d, True)
         os.makedirs(d)
         path = os.path.join(d, 'ref.bpch')
